@@ -24,6 +24,7 @@ RULE = (
     "run repeated with test_fdr placed between the smallest and largest per-fold minimum target q-value (some "
     "fold accepts nothing) must raise. Non-trivial = >= 2 folds with >= 5 accepted targets each; distinct = case parameters."
     " cli: mokapot.mokapot.main with --test_fdr != --train_fdr, its built-in model replaced by the recording model (vf.instruments.pipeline.cli_recording), judged at the command line's test FDR."
+    " A third of the tables have coarse features (exactly tied model outputs, also across labels and at the cut-off); a sixth are not shuffled."
 )
 ASSUMPTIONS = [
     "accepted targets per fold are computed with mokapot.qvalues.tdc on the recorded raw outputs (its correctness is C01's business)",
@@ -199,8 +200,11 @@ def run_case(case):
         tabs, paths = [], []
         for fi in range(case["nfiles"]):
             nsp = int(rng.integers(150, 260) * (3 if case["test_fdr"] < 0.05 else 1)) * case["folds"]
+            # a third of the tables have coarse features: identical feature rows give exactly tied model outputs, also
+            # between targets and decoys and also at the acceptance cut-off
             tab = psm.psm_table(rng, n_spectra=nsp, mult_max=2, key_cols=("ExpMass",), file_index=fi,
-                                sep_strength=float(rng.choice([3.0, 4.0])), pi1=0.6)
+                                sep_strength=float(rng.choice([3.0, 4.0])), pi1=0.6, ties=bool(case["index"] % 3 == 2),
+                                shuffle=bool(case["index"] % 6 != 5))
             tabs.append(tab)
             paths.append(psm.write_parquet(tab, d / f"f{fi}.parquet", row_group_size=int(rng.integers(10, 500)))
                          if case["fmt"] == "parquet" else psm.write_pin(tab, d / f"f{fi}.pin"))
